@@ -113,6 +113,7 @@ func lsmOpts(x *seqExec) Options {
 	if x.j.Bool("inmemory", false) {
 		o.InMemory, o.Dir, o.ValueDir = true, "", ""
 	}
+	o.SyncWrites = x.j.Bool("sync_writes", false)
 	switch x.j.Str("compression", "") {
 	case "snappy":
 		o.Compression = options.Snappy
